@@ -9,7 +9,7 @@ ROOT=$(cd "$(dirname "$0")/.." && pwd)
 W=/tmp/verif-cov; rm -rf $W; mkdir -p $W
 LLVM=$(dirname $(find /root/.rustup/toolchains/nightly-x86_64-unknown-linux-gnu -name llvm-profdata | head -1))
 cp /repo/Cargo.lock $ROOT/harness/Cargo.lock 2>/dev/null || true
-( cd $ROOT/harness && CARGO_NET_OFFLINE=true CARGO_TARGET_DIR=$W/target RUSTFLAGS="-C instrument-coverage --cfg rust_vmm_acpi_tables_verif" cargo +nightly build --offline 2>&1 | tail -1 )
+( cd $ROOT/harness && LLVM_PROFILE_FILE=$W/build-%p.profraw CARGO_NET_OFFLINE=true CARGO_TARGET_DIR=$W/target RUSTFLAGS="-C instrument-coverage --cfg rust_vmm_acpi_tables_verif" cargo +nightly build --offline 2>&1 | tail -1 )
 BIN=$W/target/debug/acpi-harness
 for p in 01 02 03 04 05 06 07 08 09 10 11 12 13 14 15 16 17 18; do
   for i in $(seq 0 15); do
